@@ -432,6 +432,12 @@ async fn run_task_async(case: &Value) -> Value {
                     Some(t) => t.to_string(),
                     None => encode_text(&a["msg"]).expect("encode"),
                 };
+                // optional extra header slots (rate / prio) as other WARP writers produce them: only for
+                // kinds without a body, whose text ends with the header's closing parenthesis
+                let text = match a.get("slots").and_then(|t| t.as_str()) {
+                    Some(extra) if text.ends_with(')') => format!("{}{})", &text[..text.len() - 1], extra),
+                    _ => text,
+                };
                 if tokio::time::timeout(Duration::from_secs(3600), peer_tx.write_text(text)).await.map(|r| r.is_err()).unwrap_or(true) {
                     log.lock().push(json!({"k": "peer_write_failed"}));
                 }
